@@ -1709,7 +1709,7 @@ var c05BaseTargets = []func() any{func() any { return new(any) }, func() any { r
 
 var c05TypedTargets = []func() any{func() any { return new([]int8) }, func() any { return new(map[string]int8) }, func() any { return new([3]int) },
 	func() any { return new(c05Typed) }, func() any { return new([]string) }, func() any { return new([]float32) }, func() any { return new(int8) },
-	func() any { return new([]c05Typed) }, func() any { return new([]uint16) }}
+	func() any { return new([]c05Typed) }, func() any { return new([]uint16) }, func() any { return new(c05From) }}
 
 // c05TypedDoc builds documents that produce semantic errors mid-stream for the typed targets: integers beyond
 // int8/uint8/int16, strings where numbers are expected and vice versa, arrays of the wrong length, floats beyond
@@ -2007,6 +2007,106 @@ func (e *c05Env) decodeStreamCase(in []byte, r *rand.Rand, optSel int, mk func()
 		}
 		recheck("at the end of the stream")
 	}
+	// transient faults between and inside the values of the stream: UnmarshalDecode must return the I/O error (never
+	// io.EOF or a value), and when the failed call consumed nothing, the retried call must give the fault-free result
+	mks := []func() any{mk, func() any { return new(c05From) }, func() any { return new(any) }}
+	for fi := 0; fi < 4; fi++ {
+		p := c05RandomPlan(r, len(in))
+		if fi == 0 {
+			p = c05Plan{kind: "chunks", name: "1-byte", fixed: 1, faultAt: -1}
+		}
+		p.faultAt = r.IntN(len(in)/2 + 6)
+		tmk := mks[fi%len(mks)]
+		fd := c05NewFeed(in, p)
+		var dec *jsontext.Decoder
+		if pp := guard(func() { dec = jsontext.NewDecoder(fd.rd, c05Opts(optSel&3)...) }); pp != nil {
+			return
+		}
+		e.cases.Add(1)
+	stream:
+		for i, sp := range spans {
+			for try := 0; ; try++ {
+				want, got := tmk(), tmk()
+				var werr, gerr error
+				var before, off int64
+				var depth int
+				var firedBefore bool
+				if pp := guard(func() {
+					werr = json.Unmarshal(append([]byte(nil), in[sp.lo:sp.hi]...), want, opts...)
+					before = dec.InputOffset()
+					firedBefore = fd.fired()
+					gerr = json.UnmarshalDecode(dec, got, opts...)
+					off, depth = dec.InputOffset(), dec.StackDepth()
+				}); pp != nil {
+					c.Panic("UnmarshalDecode", in, pp, map[string]any{"reader": p.String(), "value_index": i})
+					return
+				}
+				wcl, gcl := c05JErr(werr, 0), c05JErr(gerr, sp.lo)
+				firedNow := !firedBefore && fd.fired()
+				if errors.Is(gerr, c05ErrTransient) {
+					c.Hit("unmarshaldecode:fault-returned")
+					if off == before && depth == 0 && try < 3 {
+						continue // nothing consumed: the retry must behave as if the fault had not occurred
+					}
+					c.Hit("unmarshaldecode:fault-mid-value(excluded)")
+					break stream
+				}
+				if firedNow && gerr != nil && !(off == before && depth == 0) && wcl != gcl {
+					// The read fault struck inside the value and the call reports some OTHER error with the decoder
+					// part-way through the value.  Like SkipValue, UnmarshalDecode is not atomic under faults, so this
+					// is outside what the property promises; it is counted and sampled (see the report: on the
+					// unchanged tree `for dec.PeekKind() != ']'` in arshal_any.go turns the cached I/O error of
+					// PeekKind into "invalid character ']' at start of value").
+					c.Hit("unmarshaldecode:fault-mid-value-other-error(excluded):" + strings.SplitN(gcl, "@", 2)[0])
+					if c05MidValueFaultIsViolation {
+						c.Violate("fault-mismatch", "UnmarshalDecode:other-error-instead-of-io-error-mid-value", in, map[string]any{"input": trunc(string(in), 200),
+							"reader": p.String(), "value_index": i, "Unmarshal": wcl, "UnmarshalDecode": gcl, "InputOffset": off, "StackDepth": depth, "target": fmt.Sprintf("%T", want)})
+					} else {
+						c.Sample(map[string]any{"finding_candidate": "UnmarshalDecode under a transient fault inside a value returns a non-I/O error", "input": trunc(string(in), 120),
+							"reader": p.String(), "UnmarshalDecode": gcl, "fault_free": wcl, "InputOffset": off, "StackDepth": depth, "target": fmt.Sprintf("%T", want)})
+					}
+					break stream
+				}
+				field := ""
+				switch {
+				case wcl != gcl:
+					field = c05JErrField(wcl, gcl)
+				case !reflect.DeepEqual(want, got):
+					field = "value"
+				case gerr == nil && off != sp.hi:
+					field = "input-offset"
+				}
+				if field != "" {
+					c.Violate("fault-mismatch", "UnmarshalDecode:"+field+"-under-fault", in, map[string]any{"input": trunc(string(in), 200), "reader": p.String(), "value_index": i,
+						"value": trunc(string(in[sp.lo:sp.hi]), 100), "Unmarshal": wcl, "UnmarshalDecode": gcl, "InputOffset": off, "expected_offset": sp.hi,
+						"target": fmt.Sprintf("%T", want), "options": optSel, "retries": try})
+					break stream
+				}
+				if gerr != nil {
+					break stream
+				}
+				break
+			}
+		}
+	}
+}
+
+// c05MidValueFaultIsViolation: report a non-I/O error returned while a read fault struck INSIDE a value as a violation.
+// Off: UnmarshalDecode (like SkipValue) is not atomic under faults and the property promises nothing there; the
+// occurrences are counted in the distribution and sampled into the evidence.
+const c05MidValueFaultIsViolation = false
+
+// c05From decodes itself from the Decoder (UnmarshalerFrom): UnmarshalDecode probes for the end of the stream before
+// it calls such a method.
+type c05From struct{ Raw string }
+
+func (x *c05From) UnmarshalJSONFrom(dec *jsontext.Decoder) error {
+	v, err := dec.ReadValue()
+	if err != nil {
+		return err
+	}
+	x.Raw = string(v)
+	return nil
 }
 
 func (e *c05Env) phaseUnmarshal() {
